@@ -61,6 +61,7 @@ pub fn check(iters: &[Vec<Branch>], bound: Option<usize>, complete: bool) -> Pat
             r.violations.push((c.to_string(), d));
         }
     };
+    let mut dup_load: Option<(usize, Vec<u8>)> = None;
     for (i, s) in seqs.iter().enumerate() {
         r.entries += s.len();
         r.max_len = r.max_len.max(s.len());
@@ -72,10 +73,18 @@ pub fn check(iters: &[Vec<Branch>], bound: Option<usize>, complete: bool) -> Pat
                         r.nonexploring_entries += 1;
                     }
                 }
-                Branch::Load { exploring, .. } => {
+                Branch::Load { exploring, values, .. } => {
                     r.kinds[1] += 1;
                     if !*exploring {
                         r.nonexploring_entries += 1;
+                    }
+                    // the alternatives of a decision are different: a store offered twice gives two iterations with
+                    // different decision sequences and the same execution
+                    let mut vs = values.clone();
+                    vs.sort_unstable();
+                    vs.dedup();
+                    if vs.len() != values.len() {
+                        dup_load = Some((i, values.clone()));
                     }
                 }
                 Branch::Spurious { exploring, .. } => {
@@ -85,6 +94,9 @@ pub fn check(iters: &[Vec<Branch>], bound: Option<usize>, complete: bool) -> Pat
                     }
                 }
             }
+        }
+        if let Some((it, vals)) = dup_load.take() {
+            v("path_repeat", format!("iteration {}: a load decision offers the same store more than once (candidate slots {:?}): two alternatives of one decision are the same execution", it, vals));
         }
         if !seen.insert(h(s)) {
             v("path_repeat", format!("iteration {} repeats the decision sequence of an earlier iteration", i));
